@@ -9,6 +9,7 @@ import (
 	"strings"
 
 	"github.com/kyleconroy/sqlc/internal/cmd"
+	"github.com/kyleconroy/sqlc/internal/metadata"
 	"github.com/kyleconroy/sqlc/internal/migrations"
 	"github.com/kyleconroy/sqlc/internal/sql/sqlpath"
 )
@@ -109,4 +110,20 @@ func opGenerate(j Job) Res {
 		res["summary"] = summarize(files)
 	}
 	return res
+}
+
+func init() {
+	ops["meta"] = opMeta
+}
+
+// meta: {"text": s, "dash": bool, "hash": bool, "slashstar": bool} -> {"name","cmd"} | {"err"}
+func opMeta(j Job) Res {
+	d, _ := j["dash"].(bool)
+	h, _ := j["hash"].(bool)
+	s, _ := j["slashstar"].(bool)
+	name, cmd, err := metadata.Parse(str(j, "text"), metadata.CommentSyntax{Dash: d, Hash: h, SlashStar: s})
+	if err != nil {
+		return Res{"err": err.Error()}
+	}
+	return Res{"name": name, "cmd": cmd}
 }
